@@ -310,6 +310,8 @@ def compare(st, out, exp, header_name):
     header, vals, capped = F.parse_info(out)
     if capped:
         return True, "capped(>300 rows): not required", None
+    if "__duplicates__" in vals:
+        return False, "key-printed-twice", {"keys": vals["__duplicates__"][:200]}
     if not header.startswith(header_name):
         return False, "header-name", {"expected": header_name, "observed": header[:80]}
     for path, kind, stored in exp:
@@ -355,7 +357,15 @@ class Check(CheckBase):
 
     def run_shard(self, shard, rep: Report):
         cases = [shard["replay_case"]] if "replay_case" in shard else shard["cases"]
+        prev = None
         for case in cases:
+            if "_prelude" in case:
+                # replay: a listing may only go wrong after another listing in the same process
+                run_case(case["_prelude"])
+                case = {k: v for k, v in case.items() if k != "_prelude"}
             ok, klass, detail = run_case(case)
+            if not ok and prev is not None:
+                case = dict(case, _prelude=prev)
+            prev = {k: v for k, v in case.items() if k != "_prelude"}
             rep.case(case, ok=ok, klass=f"{case['kind']}:{klass}", nontrivial=bool(case.get("dev")) or case["kind"] == "cdda",
                      detail=detail, sig=f"{case['kind']}:{klass}" + (":" + str(detail.get("key")) if detail and "key" in detail else ""))
